@@ -80,6 +80,8 @@ fn foreign(h: u64) -> Option<ExtendedHeader> {
 
 struct Ctx {
     d: u64,
+    sw: u64,
+    pw: u64,
     store: Arc<InMemoryStore>,
     syncer: VerifSyncer,
     handle: MockedP2pHandle,
@@ -169,7 +171,29 @@ impl Ctx {
         } else {
             self.outstanding.iter().map(|(h, a, _)| format!("{h}+{a}")).collect::<Vec<_>>().join(",")
         };
-        format!("st={} head={head} out={out} off={}", show_ranges(st.as_ref()), natl(&off))
+        let pr = self.store.get_pruned_ranges().await.unwrap();
+        format!(
+            "st={} pr={} head={head} out={out} ph={} off={}",
+            show_ranges(st.as_ref()),
+            show_ranges(pr.as_ref()),
+            if self.connected_phase { 1 } else { 0 },
+            natl(&off)
+        )
+    }
+
+    /// C35's per-height removal condition, evaluated on the REAL store and the REAL header times:
+    /// stored, at or before the pruning cutoff, and outside the sampling window or both neighbours synced
+    async fn prune_safe(&self, h: u64) -> bool {
+        let Some(hdr) = honest(h) else { return false };
+        let st = self.store.get_stored_header_ranges().await.unwrap();
+        let pr = self.store.get_pruned_ranges().await.unwrap();
+        let synced = |x: u64| st.contains(x) || pr.contains(x);
+        let cutoff = |days: u64| {
+            (Time::now() - Duration::from_secs(days * DAY + DAY / 2)).unwrap_or_else(|_| Time::unix_epoch())
+        };
+        let old_p = hdr.time() <= cutoff(self.pw);
+        let old_s = hdr.time() <= cutoff(self.sw);
+        st.contains(h) && old_p && (old_s || (h >= 1 && synced(h - 1) && synced(h + 1)))
     }
 
     /// answer the idx-th outstanding request the way the real client would, given what the peer sends
@@ -238,8 +262,9 @@ impl Prop for C38 {
          failed or a stale head answer), then 30-90 events: answers to a randomly chosen outstanding request of the real \
          HeaderSession — honest (55%), truncated, fork signed by the honest key, foreign chain, invalidated or re-signed \
          header at a random position, gap, reversed, one too many, empty, not-found, transport error — header-sub \
-         announcements (adjacent, gap, stale), disconnect/reconnect with a new network head, and a final drain with \
-         honest answers under a step budget.  After every event: stored ranges, subjective head, outstanding requests \
+         announcements (adjacent, gap, stale), up to two disconnect/reconnects with a new network head, removals by \
+         the pruner of heights satisfying C35's per-height condition (refused otherwise), and final drains with honest \
+         answers under a step budget (exhausting it is a failure), one of them after further prunings.  After every event: stored ranges, subjective head, outstanding requests \
          and the stored heights whose header hash differs from the honest chain.  Non-trivial = every event after the \
          first accepted head; distinct = distinct (op, result) lines."
     }
@@ -297,7 +322,7 @@ impl Prop for C38 {
                         }
                         out.op(format!("newhead h={}", h.min(N)), "newhead", true);
                     }
-                    87..=89 if reconnects < 1 => {
+                    87..=89 if reconnects < 2 => {
                         reconnects += 1;
                         out.op("disconnect", "disconnect", true);
                         out.op("connect", "connect", false);
@@ -314,9 +339,22 @@ impl Prop for C38 {
                             head = h;
                         }
                     }
+                    90..=95 => {
+                        // the pruner: the store tail (old after a batch straddled the window edge), or any height
+                        let t = if rng.chance(3, 4) { "tail".to_string() } else { rng.range(1, head).to_string() };
+                        let k = rng.usize(1, 3);
+                        for _ in 0..k {
+                            out.op(format!("prune h={t}"), "prune", true);
+                        }
+                    }
                     _ => out.op("state", "state", false),
                 }
             }
+            out.op("drain budget=600", "drain", true);
+            // the pruner after convergence, then the syncer must stay put (C25) and the window stay full
+            out.op("prune h=tail", "prune/after-drain", true);
+            out.op("prune h=tail", "prune/after-drain", true);
+            out.op(format!("newhead h={}", (head + 1).min(N)), "newhead/after-prune", true);
             out.op("drain budget=600", "drain", true);
             out.op("state", "state", false);
             out.op("reset", "reset", false);
@@ -325,7 +363,7 @@ impl Prop for C38 {
 
     fn result_tag(&self, line: &str, result: &str) -> Option<String> {
         match opname(line) {
-            "head" => Some(result.split(' ').next().unwrap_or("").to_string()),
+            "head" | "prune" => Some(result.split(' ').next().unwrap_or("").to_string()),
             "connect" | "start" | "reset" => Some(result.to_string()),
             _ => Some(if result.ends_with("off=-") || result.contains("off=- ") { "on-chain".into() } else { "OFF-CHAIN".into() }),
         }
@@ -366,6 +404,8 @@ impl Prop for C38 {
                 );
                 let mut ctx = Ctx {
                     d,
+                    sw,
+                    pw,
                     store,
                     syncer,
                     handle,
@@ -440,6 +480,23 @@ impl Prop for C38 {
                         steps += 1;
                     }
                     format!("{} steps={steps}", ctx.state().await)
+                }
+                "prune" => {
+                    let st = ctx.store.get_stored_header_ranges().await.unwrap();
+                    let h = match arg(line, "h") {
+                        Some("tail") => st.as_ref().first().map(|r| *r.start()),
+                        Some(v) => v.parse::<u64>().ok(),
+                        None => None,
+                    };
+                    let verdict = match h {
+                        Some(h) if ctx.prune_safe(h).await => {
+                            ctx.store.remove_height(h).await.expect("remove_height of a stored height");
+                            "pruned"
+                        }
+                        _ => "refused",
+                    };
+                    ctx.settle().await;
+                    format!("{verdict} {}", ctx.state().await)
                 }
                 "state" => {
                     ctx.settle().await;
